@@ -59,7 +59,7 @@ concrete failing input except where the table below says otherwise; `result.json
 | `C18-r2a` | alias of a context whose parent carries an id | alias cases with id-carrying parents |
 | `C19-r2a`, `C19-r2b` (caught, but without a concrete input) | `%` in the JSON under a callback; chunked (> 2 KB) envelopes | `%`-strings with callback; large envelopes through the real client |
 
-**Round 3** (20 changes for ten properties, 10 missed or caught without an input)
+**Round 3** (40 changes, two per property, 19 missed or caught without an input)
 
 | missed | why | strengthening |
 |---|---|---|
@@ -70,6 +70,12 @@ concrete failing input except where the table below says otherwise; `result.json
 | `C14-r3a` (no concrete input), `C14-r3b` | close code 1004 accepted after a map→range rewrite; read buffers below 125 bytes with larger control payloads | close-code sweep on the implementation against the conformant receiver (property-level), the accepted set regenerated by evaluation (section 3a); any configured read buffer size |
 | `C16-r3a`, `C16-r3b` | a recipient behind a foreign RSA1_5 entry could not decrypt; highly compressible or > 250 000-byte payloads rejected by an inverted inflate limit | multi-recipient JWE in the model (`jweDecryptLoop`, `C16_roundtrip_jwe_multi`, `C16_tamper_jwe_multi`), recipient orders fixed and random, oracle op `jose.jwe.multi`; compressed payloads of every entropy up to 1 MiB |
 | `C19-r3a` | the `Server` header cached at the first response | `Server` re-configured between requests |
+| `C04-r3a`, `C04-r3b` (no concrete input) | the READER answered a peer's ping by writing through the writer's buffer (request bytes flushed twice); a request whose transport write reported an error although the bytes were delivered was taken out of the table | peer control traffic (ping, stream-begin, window size) between the responses in every other schedule; the endpoint's wire must be exactly the requests, once; delivered-but-failed writes whose responses must still match |
+| `C06-r3b` | `(*String).UnmarshalBinary` accepted the long-string marker and read it under the short layout | the typed decoders given all 256 marker bytes: each accepts its own marker only, and then agrees with the generic decoder |
+| `C07-r3a`, `C07-r3b` | ECDH-ES `epk` on another curve than the recipient's key panicked in the key derivation; `ocsp.ParseResponseForCert` with a certificate no SingleResponse is for dereferenced nil | ECDH-ES objects made for keys on every curve offered to keys on every curve; the `ForCert` entry point with a real response (public x/crypto test vector) and foreign / matching serial numbers |
+| `C12-r3b` | the record kept the reserved bits it was read with and wrote them back | records read from bytes with arbitrary reserved bits must marshal to the layout of their values |
+| `C15-r3b` | a cached transport deadline went stale after `WriteControl` armed its own | a transport that honours write deadlines; a control frame's deadline must not outlive it (retried, never reported, if the process stalls) |
+| `C18-r3a`, `C18-r3b` (no concrete input) | `Switch(w)` ignored when `w` was the previous writer (after `Close`); the rendered message used as a format again | writer histories (Switch/Close sequences, two writers); the whole line computed in the harness from the call alone (`%` in a rendered message is text) |
 
 {table}
 ### 13b. Behaviour-preserving changes: what the checks say when the properties still hold
